@@ -107,22 +107,23 @@ def h_default_alignment(num_pos_args: int, n_defaults: int, index: int) -> bool:
 MAXP = tier(2, 3)          # max positional-only, positional
 MAXK = 2                   # max keyword-only
 FULL = tier(False, True)
-ANN = ["", ": int", ": 'List[int]'", ": \"Foo\""]
+ANN = ["", ": int", ": 'List[int]'", ": \"Foo\"", ": None", ": 'None'", ": List[None]"]
 RET = ["", " -> None", " -> int", " -> 'Foo'", " -> \"None\""]
 
 
 def mk_source(npo, na, nd, va, nk, kmask, kw, annsel, ret, dname):
     names = iter("abcdefghij")
     i = [0]
+    shift = ret + nd        # which annotation form a parameter gets varies with the layout (all 6 forms occur at every position)
 
     def ann(n):
         k = i[0]
         i[0] += 1
         a = ""
         if annsel == 1:
-            a = ANN[1 + k % 3]
+            a = ANN[1 + (k + shift) % 6]
         elif annsel == 2 and k % 2 == 0:
-            a = ANN[1 + (k // 2) % 3]
+            a = ANN[1 + (k // 2 + shift) % 6]
         return n + a
 
     allpos = [ann(next(names)) for _ in range(npo + na)]
@@ -226,7 +227,7 @@ def _parts_sig():
     parts=_parts_sig, timeout=(240, 2400), cls="E", tracing="concrete-after-choice", twin="first",
     code=["pydoctor.astbuilder.ModuleVistor._handleFunctionDef", "._annotations_from_function", "pydoctor.astutils.unstring_annotation",
           "pydoctor.astbuilder._ValueFormatter/_AnnotationValueFormatter", "pydoctor.templatewriter.pages.format_signature", "inspect.Signature.__str__"],
-    bounds={"quick": "<=2 positional-only, <=2 positional, every count of defaults, *args or not, <=2 keyword-only with every default mask, **kwargs or not, 3 annotation placements (none / all / alternate; plain, quoted, double-quoted), 5 return forms, name or constant defaults (chosen by the layout), plain function, and overload set with all parameters annotated",
+    bounds={"quick": "<=2 positional-only, <=2 positional, every count of defaults, *args or not, <=2 keyword-only with every default mask, **kwargs or not, 3 annotation placements (none / all / alternate; forms: name, quoted subscript, double-quoted name, None, quoted None, subscript with None), 5 return forms, name or constant defaults (chosen by the layout), plain function, and overload set with all parameters annotated",
             "thorough": "<=3 positional-only and <=3 positional, full product incl. name/constant defaults and overload sets for every annotation placement"},
     outside="default/annotation expressions beyond constants, names and one subscript (C15); signatures from introspection of C modules",
 )
